@@ -24,7 +24,10 @@ import common
 
 LAMS = ['idf($)', '$', '[idf($), 1]', 'idf($) = idf($)', 'idf($1)']
 FLAT = ('hl_int', 'hl_str', 'hd_flat', 'hs_int', 'hs_str')
+# scalar fillers of the other parameters: values that OCCUR in the host values (an existing key / index / member) and values
+# that do not (a new key, a new member) - `set(a, 1)` on {'a': 1, ..} and `add(1)` on {1, 2, 3} change nothing even in place
 SCALARS = [(1, '1'), ('a', "'a'"), (True, 'true'), (1.5, '1.5'), (None, 'null'), (0, '0')]
+SCALARS_FRESH = [(7, '7'), ('q', "'q'"), (True, 'true'), (2.5, '2.5'), (None, 'null')]
 
 
 def registry(root):
@@ -148,7 +151,7 @@ def sweep(world, rng, per_param):
         if not admits:
             continue
 
-        def filler(n, p, lam):
+        def filler(n, p, lam, fresh=False):
             vt = p.value_type
             if isinstance(vt, yaqltypes.Lambda):
                 return lam
@@ -164,7 +167,7 @@ def sweep(world, rng, per_param):
                 return 'len()'
             if isinstance(vt, yaqltypes.MappingRule):
                 return '1 => 2'
-            for v, text in SCALARS:
+            for v, text in (SCALARS_FRESH if fresh else SCALARS):
                 if passes(vt, v, root, eng):
                     return text
             if n in admits:
@@ -173,6 +176,9 @@ def sweep(world, rng, per_param):
             return '1'
 
         has_lambda = any(isinstance(p.value_type, yaqltypes.Lambda) for _, p in params)
+        # the function calls back into yaql (lambdas, injected delegates): scheduling points fall INSIDE it
+        calls_back = has_lambda or any(isinstance(p.value_type, (yaqltypes.Delegate, yaqltypes.Super))
+                                       for p in fd.parameters.values())
         spellings = ([False] if fd.is_function else []) + ([True] if fd.is_method else [])
         for target, adm in sorted(admits.items()):
             # per container type the type admits: a flat value of scalars (what most functions work on without an
@@ -189,22 +195,27 @@ def sweep(world, rng, per_param):
             for nd in picks:
                 for method in spellings:
                     lams = [LAMS[0], rng.choice(LAMS[1:])] if has_lambda else ['$']
-                    for lam in lams:
-                        route = rng.choice(['var', 'var', 'doc', 'fn'])
-                        tgt = route_text(route, nd[0], nd[1])
-                        last = max([i for i, (n, p) in enumerate(pos)
-                                    if p.default is specs.NO_DEFAULT or n == target
-                                    or isinstance(p.value_type, yaqltypes.Lambda)] + [-1])
-                        args = [(tgt if n == target else filler(n, p, lam)) for i, (n, p) in enumerate(pos) if i <= last]
-                        if target == '*':
-                            args = [filler(n, p, lam) for n, p in pos] + [tgt]
-                        kwargs = [(p.alias or n, tgt if n == target else filler(n, p, lam)) for n, p in kw
-                                  if n == target or p.default is specs.NO_DEFAULT]
-                        text = spell(fd, args, kwargs, method)
-                        if text is None or text in seen:
-                            continue
-                        seen.add(text)
-                        out.append(dict(text=text, root=nd[0], fn=fd.name, raw=route == 'doc'))
+                    for li, lam in enumerate(lams):
+                        # both kinds of scalar fillers for the first lambda, one of them (seeded) for the others
+                        for fresh in ((False, True) if li == 0 else (rng.random() < 0.5,)):
+                            route = rng.choice(['var', 'var', 'doc', 'fn'])
+                            tgt = route_text(route, nd[0], nd[1])
+                            last = max([i for i, (n, p) in enumerate(pos)
+                                        if p.default is specs.NO_DEFAULT or n == target
+                                        or isinstance(p.value_type, yaqltypes.Lambda)] + [-1])
+                            args = [(tgt if n == target else filler(n, p, lam, fresh))
+                                    for i, (n, p) in enumerate(pos) if i <= last]
+                            if target == '*':
+                                args = [filler(n, p, lam, fresh) for n, p in pos] + [tgt]
+                            elif var is not None and last == len(pos) - 1:
+                                args.append(filler('*', var, lam, fresh))       # `*values`: at least one value
+                            kwargs = [(p.alias or n, tgt if n == target else filler(n, p, lam, fresh)) for n, p in kw
+                                      if n == target or p.default is specs.NO_DEFAULT]
+                            text = spell(fd, args, kwargs, method)
+                            if text is None or text in seen:
+                                continue
+                            seen.add(text)
+                            out.append(dict(text=text, root=nd[0], fn=fd.name, raw=route == 'doc', inside=calls_back))
     # plain readers of every shared value: the value itself (finalised = read to the leaves), its size, its members
     for name in sorted(c18.HOSTVALS):
         for route in ('var', 'doc', 'fn'):
@@ -237,6 +248,10 @@ def part_h(seed, tier, deadline):
         readers = dict((r, [c for c in cs if c['fn'] == '<reader>']) for r, cs in by_root.items())
         order = [i for i, c in enumerate(pool) if c['fn'] != '<reader>']
         rng.shuffle(order)
+        # actors whose function has scheduling points inside it (lambdas, delegates) first: only there can another thread
+        # run between two steps of the function under test
+        order.sort(key=lambda i: not pool[i].get('inside'))
+        stats['statements_with_points_inside'] = sum(1 for i in order if pool[i].get('inside'))
         alone_ok = {}
 
         def dkind(c):
